@@ -454,7 +454,11 @@ impl<'de, K: Key, S: BuildHasher + Default> Deserialize<'de> for RodeoReader<K, 
 
             match entry {
                 RawEntryMut::Occupied(..) => {
-                    debug_assert!(false, "re-interned a key while deserializing");
+                    // Keys are positions within the list, so a repeated string would leave
+                    // the key-to-string table out of step with every following key
+                    return Err(serde::de::Error::custom(
+                        "duplicate string in a serialized interner",
+                    ));
                 }
                 RawEntryMut::Vacant(entry) => {
                     // Create the key from the vec's index that the string will hold
